@@ -173,6 +173,30 @@ func init() {
 				return err
 			}
 		}
+		// ---- JSON leaf chunks: processBuffer cuts buffer[chunkStart:valueOffset] at boundaries, Done writes the rest
+		jcf := "go/store/prolly/tree/json_chunker.go"
+		jc, err := c.file(jcf)
+		if err != nil {
+			return err
+		}
+		pb, _, err := body(jcf, jc, "JsonChunker", "processBuffer")
+		if err != nil {
+			return err
+		}
+		c.defString("jsonProcessBufferBody", pb)
+		_, dn, err := body(jcf, jc, "JsonChunker", "Done")
+		if err != nil {
+			return err
+		}
+		if len(dn.Body.List) < 2 {
+			return fmt.Errorf("JsonChunker.Done: unexpected shape")
+		}
+		c.defString("jsonDoneNoCursor", valSquash(c.src(jcf, dn.Body.List[1])))
+		_, sj, err := body(jcf, jc, "", "SerializeJsonToAddr")
+		if err != nil {
+			return err
+		}
+		c.defStringList("serializeJsonCalls", callNames(sj.Body))
 		if len(readers) == 0 {
 			return fmt.Errorf("no caller of SerializeBytesToAddr found")
 		}
